@@ -162,6 +162,12 @@ pub fn any_tweak() -> Tweak {
         Err(e) => { core::mem::forget(e); kani::assume(false); secp256k1_zkp::ZERO_TWEAK }
     }
 }
+/// any 32 bytes as a Tweak without going through the range check (for encode-only harnesses, where validity of the
+/// scalar is irrelevant: the encoder writes the 32 bytes verbatim)
+pub fn raw_tweak() -> Tweak {
+    let b: [u8; 32] = kani::any();
+    unsafe { core::mem::transmute::<[u8; 32], Tweak>(b) }
+}
 /// a byte vector of concrete length with symbolic content
 pub fn any_vec<const L: usize>() -> Vec<u8> {
     let a: [u8; L] = kani::any();
